@@ -707,7 +707,75 @@ def rule_empty_comment_recorded(ctx):
 
 from .c06 import rule_precision_pattern  # noqa: E402  (description of SELECT * must agree on precision and scale)
 
+def rule_columns_redirect_keeps_scope(ctx):
+    """C09.l: redirecting `information_schema.columns` to fakesnow's own columns view keeps what the user wrote around the name:
+    the catalog qualifier (`other_db.information_schema.columns` lists other_db), the schema and the alias."""
+    from ..execmodel import node
+    from .wiring import P, UNCHANGED, run_cases
+
+    def ident(n):  # concrete names: the stage compares them with keywords
+        return NodeV("Identifier", {"this": Const(n), "quoted": Const(False)}, name=f"id:{n}", open=False)
+
+    def table(n, db, cat):
+        a = {"this": ident(n), "db": ident(db)}
+        if cat:
+            a["catalog"] = ident(cat)
+        t = NodeV("Table", a, name=f"tbl:{n}", open=False)
+        for v in a.values():
+            v.parent = t
+        return t
+
+    def q(cat, alias):
+        def make():
+            t = table("columns", "information_schema", cat)
+            ops = {"db": t.args["db"]}
+            if cat:
+                ops["catalog"] = t.args["catalog"]
+            if alias:
+                a = node("TableAlias", "alias", this=ident("C"))
+                t.args["alias"] = a
+                a.parent = t
+                ops["alias"] = a
+            return t, ops
+        return make
+
+    def text(v):
+        while isinstance(v, NodeV) and v.cls in ("Identifier", "TableAlias"):
+            v = v.args.get("this")
+        return v.v if isinstance(v, Const) else None
+
+    def same(opnd):  # the operand itself or a rebuilt identifier / alias of the same name
+        def pat(v, path):
+            if v is opnd or (text(v) is not None and text(v) == text(opnd)):
+                return None
+            return f"{path} is `{tagof(v)}`, expected `{tagof(opnd)}`"
+        return pat
+
+    def want(o, i):
+        slots = {"this": "_FS_COLUMNS_SNOWFLAKE", "db": same(o["db"])}
+        if "catalog" in o:
+            slots["catalog"] = same(o["catalog"])
+        if "alias" in o:
+            slots["alias"] = same(o["alias"])
+        return P("Table", **slots)
+
+    stage = "information_schema_fs_columns_snowflake"
+    cases = [
+        ("information_schema.columns -> the columns view", stage, q(None, False), want, "the view carries Snowflake's type names and lengths"),
+        ("<db>.information_schema.columns keeps the database qualifier", stage, q("D9", False), want,
+         "another database's columns are read from that database's view; without the qualifier the current database's (or no) metadata answers"),
+        ("<db>.information_schema.columns AS c keeps qualifier and alias", stage, q("D9", True), want,
+         "the alias is what the rest of the query refers to"),
+        ("information_schema.columns AS c keeps the alias", stage, q(None, True), want, "the alias is what the rest of the query refers to"),
+        ("a user table named COLUMNS is left alone", stage, lambda: (table("COLUMNS", "S1", "D9"), {}), UNCHANGED,
+         "only the information_schema view is redirected"),
+    ]
+    n = run_cases(ctx, "C09.l", cases)
+    ctx.floor("C09.l redirect cases", n, 5)
+
+
 RULES = [
+    ("C09.l", rule_columns_redirect_keeps_scope, ("quick", "thorough")),
     ("C09.g", rule_precision_pattern, ("quick", "thorough")),
     ("C09.f", rule_no_phantom_comment, ("quick", "thorough")),
     ("C09.f2", rule_empty_comment_recorded, ("quick", "thorough")),
